@@ -5,6 +5,7 @@ import (
 	"bytes"
 	"encoding/json"
 	"fmt"
+	"github.com/jhalter/mobius/hotline"
 	"os"
 	"path/filepath"
 	"sort"
@@ -24,7 +25,7 @@ import (
 func init() {
 	core.Register(&core.Simple{
 		Id: "C15", Lvl: "exploration", Quick: 160, Thorough: 4000, PerBatch: 40, Width: 16, Timeout: 1500,
-		RuleText: "each case is a history of 12-25 account-management requests sent by an administrator through the real connection loop (new-user, set-user, delete-user, update-user batches mixing create/modify/rename/delete; logins, names and passwords drawn from byte strings that are legal file names incl. spaces, YAML-significant text, leading/trailing blanks, high bytes, names up to 255 bytes, logins up to the 250 bytes for which '<login>.yaml' is still a legal file name; password field = new / one-zero-byte 'unchanged' marker / absent); after every step a reference model is compared with (1) login attempts for every login ever used with its current and formerly used passwords, (2) list-users and get-user replies, (3) the parsed account files, (4) a second account manager loaded from the directory. a stress batch lets five administrators create the same fresh login at the same moment (exactly one may win, and memory, file and restart must show the winner's data). distinct = (multiset of operation kinds in the history); non-trivial = history contains a rename, delete or password change",
+		RuleText: "each case is a history of 12-25 account-management requests sent by an administrator through the real connection loop (new-user, set-user, delete-user, update-user batches mixing create/modify/rename/delete; logins, names and passwords drawn from byte strings that are legal file names incl. spaces, YAML-significant text, leading/trailing blanks, high bytes, names up to 255 bytes, logins up to the 250 bytes for which '<login>.yaml' is still a legal file name; password field = new / one-zero-byte 'unchanged' marker / absent); after every step a reference model is compared with (1) login attempts for every login ever used with its current and formerly used passwords, (2) list-users and get-user replies, (3) the parsed account files, (4) a second account manager loaded from the directory. a stress batch lets five administrators create the same fresh login at the same moment (exactly one may win, and memory, file and restart must show the winner's data), then two administrators edit an account while a third deletes it (memory, file and restart must agree on whether it exists and on its name). distinct = (multiset of operation kinds in the history); non-trivial = history contains a rename, delete or password change",
 		Case:     runCase,
 		Extra: func(tier string, seed int64) []core.Batch {
 			n := 40
@@ -109,6 +110,52 @@ func runConcurrent(b core.Batch, em *core.Emitter) {
 			if !memOK || !diskOK {
 				res.Verdict, res.Key = core.Violated, "C15/concurrent-create/winner-differs"
 				res.Msg = fmt.Sprintf("round %d: administrator %d's creation of %q was acknowledged; in memory the account matches it: %v; the account file matches it: %v (file name field %q)", round, wn, login, memOK, diskOK, doc.Name)
+			}
+		}
+		// second phase: two administrators edit an account while a third deletes it, all at the same moment. Whatever the
+		// order, afterwards the account exists in memory iff its file exists iff a restart yields it, with the same name.
+		for round := 0; round < a.Rounds && res.Verdict == core.Held; round++ {
+			login := fmt.Sprintf("edited%04d", round)
+			if rep, ok := admins[0].Call(350, rc.F(105, rc.Obfuscate([]byte(login))), rc.FS(102, "original"), rc.F(106, rc.Obfuscate([]byte("pw"))), rc.F(110, rc.Bitmap(2, 9))); !ok || rep.Err != 0 {
+				continue
+			}
+			var wg sync.WaitGroup
+			start := make(chan struct{})
+			for i := 0; i < 3; i++ {
+				wg.Add(1)
+				go func(i int) {
+					defer wg.Done()
+					<-start
+					if i == 2 {
+						admins[i].CallDirect(351, rc.F(105, rc.Obfuscate([]byte(login))))
+						return
+					}
+					admins[i].CallDirect(353, rc.F(105, rc.Obfuscate([]byte(login))), rc.FS(102, fmt.Sprintf("edited-by-%d-%s", i, strings.Repeat("x", 3000))), rc.F(106, []byte{0}), rc.F(110, rc.Bitmap(2, 9, 10)))
+				}(i)
+			}
+			close(start)
+			wg.Wait()
+			srv.Quiesce(refclient.Watchdog)
+			res.Obs["concurrent_edit_delete_rounds"]++
+			mem := srv.S.AccountManager.Get(login)
+			_, statErr := os.Stat(filepath.Join(dir, login+".yaml"))
+			onDisk := statErr == nil
+			var fresh *hotline.Account
+			if m2, err := verifshim.NewYAMLAccountManager(dir); err == nil {
+				fresh = m2.Get(login)
+			}
+			if (mem != nil) != onDisk || (mem != nil) != (fresh != nil) || (mem != nil && fresh != nil && mem.Name != fresh.Name) {
+				res.Verdict, res.Key = core.Violated, "C15/concurrent-edit-delete/views-differ"
+				name := func(a *hotline.Account) string {
+					if a == nil {
+						return "<absent>"
+					}
+					if len(a.Name) > 20 {
+						return a.Name[:20]
+					}
+					return a.Name
+				}
+				res.Msg = fmt.Sprintf("round %d: two set-user requests and a delete-user for %q were sent at the same moment; afterwards the running server has the account: %v (name %q), its file exists: %v, a restart yields it: %v (name %q)", round, login, mem != nil, name(mem), onDisk, fresh != nil, name(fresh))
 			}
 		}
 		if res.Verdict == core.Held {
